@@ -109,7 +109,14 @@ def sympy_to_python_fn(
         return x**2 + y
 
     """
-    fn_args = ", ".join(f"{i}: float" for i in args)
+    # A model argument may be passed twice; parameter names have to stay unique
+    unique_args: list[str] = []
+    for i in args:
+        name, n = i, 1
+        while name in unique_args:
+            name, n = f"{i}_{n}", n + 1
+        unique_args.append(name)
+    fn_args = ", ".join(f"{i}: float" for i in unique_args)
 
     return f"""def {fn_name}({fn_args}) -> float:
     return {pycode(expr, fully_qualified_modules=True, full_prec=False)}
